@@ -175,7 +175,9 @@ class Gen:
         if k == "K_WHEN_ANY":
             n = r.randrange(2, 4)
             return Node(k, vt, [sub(vt) for _ in range(n)])
-        if k == "K_STOP_WHEN": return Node(k, vt, [sub(vt), sub(E)])
+        # stop_when's result storage has no slot for exception_ptr unless the source declares it: a source without error types
+        # (schedule(), just()) does not compile there (library limitation at compile time, no runtime behaviour involved)
+        if k == "K_STOP_WHEN": return Node(k, vt, [self.gen_err(vt, d, ctx), sub(E)])
         if k == "K_RETRY_WHEN":
             n = Node(k, vt)
             c1 = dict(ctx); c1["copyable"] = True
